@@ -215,8 +215,18 @@ def _eval_chunk(args):
             if prop == "C15":
                 sym = post(text, None)
             else:
-                r = rebuild(text)
+                from nix_manipulator import parse
+
+                doc = parse(text)
+                r = doc.rebuild()
                 sym = post(text, r)
+                if sym is None and prop in ("C01", "C03"):
+                    # the property speaks about every rebuild of the document, not only the first one
+                    r2 = doc.rebuild()
+                    if r2 != r:
+                        sym = post(text, r2)
+                        if sym is not None:
+                            sym = "on-second-rebuild-of-the-same-document:" + sym
         except ValueError as e:
             # an explicit refusal (documented failure mode, C20) is not a silent change of meaning
             sym = None
@@ -293,6 +303,15 @@ def replay_roundtrip(prop, v):
     try:
         r = rebuild(text) if prop != "C15" else None
         sym = POSTS[prop](text, r)
+        if sym is None and prop in ("C01", "C03"):
+            from nix_manipulator import parse
+
+            doc = parse(text)
+            doc.rebuild()
+            r2 = doc.rebuild()
+            if r2 != r and POSTS[prop](text, r2) is not None:
+                sym = "on-second-rebuild-of-the-same-document:" + POSTS[prop](text, r2)
+                r = r2
     except Exception as e:
         sym = f"rebuild-raises:{type(e).__name__}"
     print("input:", repr(text))
